@@ -361,6 +361,23 @@ func (f *ILFunc) cutLoops(fnName string, defaultProps []string) {
 			}
 			l.Inv[i].E = e
 		}
+		// exit clauses of this loop may also refer to loop-entry values
+		for _, xb := range f.Blocks {
+			if xb.Label != fmt.Sprintf("loopexit(%d)", h.ID) {
+				continue
+			}
+			for i := range xb.Stmts {
+				e := xb.Stmts[i].E
+				if !strings.Contains(e, "@pre{") {
+					continue
+				}
+				for _, v := range l.Modified {
+					e = strings.ReplaceAll(e, "@pre{"+v.Name+"}", snap[v])
+				}
+				e = strings.ReplaceAll(e, "@pre{", "@{")
+				xb.Stmts[i].E = e
+			}
+		}
 		mkAsserts := func(kind string, blk *ILBlock) {
 			for i, inv := range l.Inv {
 				name := fmt.Sprintf("%s/%s@%s#%d", fnName, kind, key, i)
